@@ -86,7 +86,6 @@ def encOrigin : Origin Atom → Json
 
 partial def encNorm : Norm Atom → Json
   | .node o args => Json.mkObj [("o", encOrigin o), ("args", listJ (args.map encNorm))]
-  | .tv a => Json.mkObj [("tv", natJ a.id)]
   | .ellipsis => "..."
   | .lit v => Json.mkObj [("lit", encLit v)]
   | .mdata m => Json.mkObj [("meta", Json.str (ofStr m))]
